@@ -60,36 +60,38 @@ deriving Inhabited, Repr, DecidableEq
 
 def isCont (b : Nat) : Bool := 0x80 ≤ b && b ≤ 0xBF
 
-/-- Model of Go's `utf8.DecodeRune` on a byte list. Returns `(rune, width)`;
-    `(runeError, 0)` on empty input, `(runeError, 1)` on any malformed prefix. -/
+def dec2 (p0 : Nat) : List Nat → Rune × Nat
+  | b1 :: _ => if isCont b1 then ((p0 % 32) * 64 + b1 % 64, 2) else (runeError, 1)
+  | [] => (runeError, 1)
+
+/-- three-byte forms; `lo..hi` is the accepted range of the second byte -/
+def dec3 (p0 lo hi : Nat) : List Nat → Rune × Nat
+  | b1 :: b2 :: _ =>
+    if lo ≤ b1 && b1 ≤ hi && isCont b2 then ((p0 % 16) * 4096 + (b1 % 64) * 64 + b2 % 64, 3)
+    else (runeError, 1)
+  | _ => (runeError, 1)
+
+def dec4 (p0 lo hi : Nat) : List Nat → Rune × Nat
+  | b1 :: b2 :: b3 :: _ =>
+    if lo ≤ b1 && b1 ≤ hi && isCont b2 && isCont b3 then
+      ((p0 % 8) * 262144 + (b1 % 64) * 4096 + (b2 % 64) * 64 + b3 % 64, 4)
+    else (runeError, 1)
+  | _ => (runeError, 1)
+
+/-- Model of Go's `utf8.DecodeRune` on a byte list (the `first`/`acceptRanges` tables spelled out).
+    Returns `(rune, width)`; `(runeError, 0)` on empty input, `(runeError, 1)` on any malformed prefix. -/
 def decodeRune : List Nat → Rune × Nat
   | [] => (runeError, 0)
   | p0 :: rest =>
     if p0 < 0x80 then (p0, 1)
     else if p0 < 0xC2 then (runeError, 1)
-    else if p0 < 0xE0 then
-      match rest with
-      | b1 :: _ =>
-        if isCont b1 then ((p0 % 32) * 64 + b1 % 64, 2) else (runeError, 1)
-      | _ => (runeError, 1)
-    else if p0 < 0xF0 then
-      let lo := if p0 = 0xE0 then 0xA0 else 0x80
-      let hi := if p0 = 0xED then 0x9F else 0xBF
-      match rest with
-      | b1 :: b2 :: _ =>
-        if lo ≤ b1 && b1 ≤ hi && isCont b2 then
-          ((p0 % 16) * 4096 + (b1 % 64) * 64 + b2 % 64, 3)
-        else (runeError, 1)
-      | _ => (runeError, 1)
-    else if p0 < 0xF5 then
-      let lo := if p0 = 0xF0 then 0x90 else 0x80
-      let hi := if p0 = 0xF4 then 0x8F else 0xBF
-      match rest with
-      | b1 :: b2 :: b3 :: _ =>
-        if lo ≤ b1 && b1 ≤ hi && isCont b2 && isCont b3 then
-          ((p0 % 8) * 262144 + (b1 % 64) * 4096 + (b2 % 64) * 64 + b3 % 64, 4)
-        else (runeError, 1)
-      | _ => (runeError, 1)
+    else if p0 < 0xE0 then dec2 p0 rest
+    else if p0 = 0xE0 then dec3 p0 0xA0 0xBF rest
+    else if p0 = 0xED then dec3 p0 0x80 0x9F rest
+    else if p0 < 0xF0 then dec3 p0 0x80 0xBF rest
+    else if p0 = 0xF0 then dec4 p0 0x90 0xBF rest
+    else if p0 < 0xF4 then dec4 p0 0x80 0xBF rest
+    else if p0 = 0xF4 then dec4 p0 0x80 0x8F rest
     else (runeError, 1)
 
 /-! ### small list helpers -/
